@@ -141,7 +141,9 @@ class Canon:
                 # IT: V(x')
                 lid, it, _ = b[3][0]
                 x_old = ("elem", it, lid)
-                if i[0] == "elem" and i[1] == it and b[2][0] == x_old:
+                if b[2][0] == x_old and i[0] != "slice":
+                    # keyed by the element itself: D[k] is V(k) for whatever k it is asked for (a k
+                    # outside IT raises KeyError - as the look-up it replaces does)
                     return self.norm(_subst_term(b[2][1], x_old, i))
             if b[0] == "cell" and b[3] == "ALL" and i[0] != "slice":
                 # the i-th entry of a whole group segment v[start:end] is the group's entry i
